@@ -13,6 +13,10 @@ inductive Op where
   | wr (o : IOOut)                -- the send loop's pending write returns with `o`
   | rd (o : IOOut) (f : Frame)    -- the receive loop's pending read returns with `o`
                                   -- (`f`: the frame completed by a successful body read)
+  | burst (rs : List (IOOut × Frame))
+                                  -- the receive loop's pending read and the reads that follow it
+                                  -- return without a yield in between (a frame and the end of
+                                  -- stream / error right behind it arrive together); then drain
   | pingDue                       -- the ping loop's sleep ends
   | pingSilence                   -- 5 s after a ping was queued, no Rping arrived
   | close                         -- Close()
@@ -34,6 +38,7 @@ def stepOut (s : St) : Op → St × Out
   | .req id tag => s.request id tag
   | .wr o => s.wr o
   | .rd o f => s.rd o f
+  | .burst rs => s.burst rs
   | .pingDue => s.pingDue
   | .pingSilence => s.pingSilence
   | .close => s.close
@@ -54,11 +59,16 @@ def decFrame : V → Option Frame
   | .a "junk" => some .junk
   | _ => none
 
+def decRead : V → Option (IOOut × Frame)
+  | .l [o, f] => do pure (← decIO o, ← decFrame f)
+  | _ => none
+
 def decOp : List V → Option Op
   | [.a "open", r] => do pure (.openT (← decConn r))
   | [.a "req", id, tag] => do pure (.req (← id.nat?) (← tag.nat?))
   | [.a "wr", o] => do pure (.wr (← decIO o))
   | [.a "rd", o, f] => do pure (.rd (← decIO o) (← decFrame f))
+  | [.a "burst", .l rs] => do pure (.burst (← rs.mapM decRead))
   | [.a "pingdue"] => some .pingDue
   | [.a "pingsilence"] => some .pingSilence
   | [.a "close"] => some .close
@@ -103,7 +113,8 @@ def decObs : V → Option Obs
 
   * once        — a response is only ever handed to a request that is owed one;
   * a *connection failure* (a refused connect; a write or read call of a loop that raised or
-    met end-of-stream; five seconds of ping silence) must, within the same operation, fail every
+    met end-of-stream — also one that follows other reads without a yield, `burst`; five
+    seconds of ping silence) must, within the same operation, fail every
     request in flight with an error, leave the transport reporting `closed`, and raise the
     fault signal if it was not reporting `closed` before;
   * carries     — a request issued while the transport reports `open` is not rejected, and
@@ -134,6 +145,7 @@ def isFailure (op : Op) (o : Obs) : Bool :=
   | .wr .eof => true
   | .rd .raise _ => true
   | .rd .eof _ => true
+  | .burst rs => rs.any (fun r => r.1 ≠ .ok)
   | .pingSilence => true
   | _ => false
 
@@ -152,10 +164,20 @@ def owedWith (a : Acc) (op : Op) : List Nat :=
   | some id => a.owed ++ [id]
   | none => a.owed
 
+/-- the first request in flight that a connection failure leaves unattended.  Every request in
+    flight must be handed an error.  In a `burst` the frames precede the failing read: a request
+    whose reply was dispatched before the failure was noticed is no longer in flight, so there a
+    request counts as attended if it was handed its reply *or* an error in this operation
+    (never both: `settle`).  The code under verification always hands out the error. -/
+def firstUnfailed (op : Op) (owed : List Nat) (dels : List (Nat × Resp)) : Option Nat :=
+  match op with
+  | .burst _ => owed.find? (fun id => !(dels.any (fun d => d.1 == id)))
+  | _ => firstNotFailed owed dels
+
 /-- the clauses on a connection failure -/
 def vFail (a : Acc) (op : Op) (o : Obs) : Verdict :=
   if isFailure op o then
-    match firstNotFailed (owedWith a op) o.dels with
+    match firstUnfailed op (owedWith a op) o.dels with
     | some id => .fail "inflight-not-failed" [V.ofNat a.idx, V.ofNat id]
     | none =>
       if o.state ≠ .closed then .fail "not-closed-after-failure" [V.ofNat a.idx, encCS o.state]
@@ -202,8 +224,9 @@ def spec (_ : Unit) (h : List (Op × Obs)) : Verdict := specGo {} h
 
 /-! ### hypotheses on operation lists
 
-  `wr`, `rd`, `pingDue`, `pingSilence` stand for something that happens to a blocked greenlet
-  and are only meaningful when that greenlet exists.  `Open()` is called once ("This method
+  `wr`, `rd`, `burst`, `pingDue`, `pingSilence` stand for something that happens to a blocked
+  greenlet and are only meaningful when that greenlet exists (a `burst` may list reads behind a
+  failing one: they do not happen).  `Open()` is called once ("This method
   may only be called once"), before anything else; requests are not issued while the open is
   still waiting for the initial ping (the caller would block); request ids are fresh and the
   tag handed out by the pool is not the tag of a request in flight, nor 0 or 1 (C11). -/
@@ -215,6 +238,7 @@ def enabled (s : St) (seen : List Nat) : Op → Bool
       (s.cstate ≠ .opened || (decide (2 ≤ tag) && !(s.tagMap.any (fun p => p.1 == tag))))
   | .wr o => (match s.sl with | .writing _ => true | _ => false) && o ≠ .eof
   | .rd _ _ => s.rl ≠ .dead
+  | .burst _ => s.rl ≠ .dead
   | .pingDue => s.pingLoop && !s.pingWait
   | .pingSilence => s.pingWait
   | .close => s.cstate ≠ .idle || s.hasOpenResult
@@ -239,6 +263,7 @@ def connFailure (s : St) : Op → Bool
   | .wr .raise => match s.sl with | .writing _ => true | _ => false
   | .rd .raise _ => s.rl ≠ .dead
   | .rd .eof _ => s.rl ≠ .dead
+  | .burst rs => s.rl ≠ .dead && rs.any (fun r => r.1 ≠ .ok)
   | .pingSilence => s.pingWait
   | _ => false
 
